@@ -20,50 +20,23 @@
 From Coq Require Import List Arith NArith Bool Lia.
 Import ListNotations.
 Require Import SR.Base.Res SR.Spec.Layout SR.Model.Layout SR.Proofs.LayoutP.
+(* The definitions of this development that occur in theorem statements (Props/) live in Spec/LayoutNamesWf.v (audit item G1).
+   The abbreviations keep the qualified names LayoutNamesP.name of other files resolving; they are parsing-only aliases. *)
+Require Export SR.Spec.LayoutNamesWf.
+Notation nodupb := SR.Spec.LayoutNamesWf.nodupb (only parsing).
+Notation siblings_distinct := SR.Spec.LayoutNamesWf.siblings_distinct (only parsing).
+Notation sd_kids := SR.Spec.LayoutNamesWf.sd_kids (only parsing).
+Notation is_member := SR.Spec.LayoutNamesWf.is_member (only parsing).
+Notation anchored := SR.Spec.LayoutNamesWf.anchored (only parsing).
+Notation anchored_kids := SR.Spec.LayoutNamesWf.anchored_kids (only parsing).
+Notation count_id := SR.Spec.LayoutNamesWf.count_id (only parsing).
+Notation anchored_names_unique := SR.Spec.LayoutNamesWf.anchored_names_unique (only parsing).
+Notation no_redefines := SR.Spec.LayoutNamesWf.no_redefines (only parsing).
+Notation nr_kids := SR.Spec.LayoutNamesWf.nr_kids (only parsing).
+Notation dup_tree := SR.Spec.LayoutNamesWf.dup_tree (only parsing).
+Notation dup_before_tree := SR.Spec.LayoutNamesWf.dup_before_tree (only parsing).
 
 (* ------------------------------------------------------------------ the hypotheses, decidable *)
-Fixpoint nodupb (l : list id) : bool :=
-  match l with [] => true | a :: r => negb (existsb (N.eqb a) r) && nodupb r end.
-
-(* the children of every group carry pairwise distinct names *)
-Fixpoint siblings_distinct (x : item) : bool :=
-  match x with
-  | Elem _ _ _ _ => true
-  | Group _ _ _ ks => nodupb (kid_ids ks) && sd_kids ks
-  end
-with sd_kids (ks : items) : bool :=
-  match ks with INil => true | ICons x xs => siblings_distinct x && sd_kids xs end.
-
-(* x, followed by the siblings xs, is a member of a REDEFINES union: it redefines, or a later sibling redefines it *)
-Definition is_member (x : item) (xs : items) : bool :=
-  is_redefiner x || existsb (N.eqb (item_id x)) (redef_targets xs).
-
-(* the names that are looked up through the anchors map: one entry per member of a union, anywhere in the tree *)
-Fixpoint anchored (x : item) : list id :=
-  match x with
-  | Elem _ _ _ _ => []
-  | Group _ _ _ ks => anchored_kids ks
-  end
-with anchored_kids (ks : items) : list id :=
-  match ks with
-  | INil => []
-  | ICons x xs => (if is_member x xs then [item_id x] else []) ++ anchored x ++ anchored_kids xs
-  end.
-
-Definition count_id (i : id) (l : list id) : nat := length (filter (N.eqb i) l).
-
-(* every name of a union member is the name of exactly one item of the record *)
-Definition anchored_names_unique (t : item) : bool :=
-  forallb (fun i => count_id i (ids t) =? 1) (anchored t).
-
-(* no REDEFINES clause anywhere below the record (one on the record itself has no parent and is ignored) *)
-Fixpoint no_redefines (x : item) : bool :=
-  match x with
-  | Elem _ _ _ _ => true
-  | Group _ _ _ ks => (match redef_targets ks with [] => true | _ => false end) && nr_kids ks
-  end
-with nr_kids (ks : items) : bool :=
-  match ks with INil => true | ICons x xs => no_redefines x && nr_kids xs end.
 
 (* ------------------------------------------------------------------ lists *)
 Lemma nodupb_NoDup l : nodupb l = true -> NoDup l.
@@ -903,16 +876,6 @@ Proof.
   apply forallb_one_negb_two. apply (proj1 anchored_incl_ids).
 Qed.
 
-(* ------------------------------------------------------------------ the boundary, by a witness
-   01 R. 05 ZIP PIC 9999. 05 G. 10 ZIP PIC XX. 05 Z2 REDEFINES ZIP PIC X.      (R=1 ZIP=2 G=3 Z2=4)
-   the witness of finding K-duplicate-name-union: ZIP is the redefined item and its name is used again in G.
-   The COBOL rules put ZIP at 0-4; the placeholder of ZIP resolves to G's ZIP, registered later: 4-6. *)
-Definition dup_tree : item :=
-  Group 1%N Once None
-    (ICons (Elem 2%N 4 Once None)
-    (ICons (Group 3%N Once None (ICons (Elem 2%N 2 Once None) INil))
-    (ICons (Elem 4%N 1 Once (Some 2%N)) INil))).
-
 Lemma dup_tree_facts :
   wf (fun _ => 0) dup_tree = true /\ siblings_distinct dup_tree = true /\ anchored_names_unique dup_tree = false
   /\ JLayoutCommon.dup_union_name dup_tree = true
@@ -948,14 +911,6 @@ Proof.
   rewrite Hnav in Hnav'. injection Hnav' as <-. rewrite Hpath in Hpath'. injection Hpath' as <-.
   rewrite Hst in Hst'. discriminate.
 Qed.
-
-(* the hypothesis is sufficient, not necessary: registration is last-wins, so a second use of a member's name
-   EARLIER in the record is harmless.   01 R. 05 G. 10 ZIP PIC XX. 05 ZIP PIC 9999. 05 Z2 REDEFINES ZIP PIC X. *)
-Definition dup_before_tree : item :=
-  Group 1%N Once None
-    (ICons (Group 3%N Once None (ICons (Elem 2%N 2 Once None) INil))
-    (ICons (Elem 2%N 4 Once None)
-    (ICons (Elem 4%N 1 Once (Some 2%N)) INil))).
 
 Lemma dup_before_facts :
   wf (fun _ => 0) dup_before_tree = true /\ siblings_distinct dup_before_tree = true
